@@ -300,6 +300,7 @@ pub fn judge(c: &[u64], a: &[i128]) -> (Vec<(&'static str, &'static str)>, Vec<&
         if ans.len() < 2 { break; }
         let (res, calls, freed) = (&ans[..ans.len() - 2], ans[ans.len() - 2], ans[ans.len() - 1]);
         if res.first() == Some(&-20) { fail!("C09", "a recursive-mapper access did not resolve to a page table of the hierarchy (page fault)"); break; }
+        if res.first() == Some(&-23) { fail!("C11", "flushing the token returned by a successful call did not execute exactly one INVLPG of the page's start address (resp., for a parent-flag call, exactly a reload of CR3 with its current value)"); break; }
         if res.first() == Some(&-22) { fail!("C20", "the recursive mapper dereferenced a virtual address that is not the recursive address (index repeated 3/2/1 times, then the page's upper indices, sign-extended) of one of the page's tables"); break; }
         if res.first() == Some(&-21) { fail!("C10", "a page table was handed to the deallocator while an entry of the hierarchy still pointed to it (released before it was unlinked from its parent)"); break; }
         let ok = res.first() == Some(&0);
